@@ -6,11 +6,13 @@ import importlib
 
 UNIT_MODULES = {
     "GenBatch": "gen_batch",
+    "GenCrash": "gen_crash",
     "GenFmt": "gen_fmt",
     "GenInfini": "gen_infini",
     "GenMissing": "gen_missing",
     "GenFarmer": "gen_farmer",
     "GenNames": "gen_names",
+    "GenPublish": "gen_publish",
     "GenReap": "gen_reap",
     "GenRunner": "gen_runner",
     "GenStages": "gen_stages",
